@@ -615,6 +615,154 @@ func main() {
 		height++
 	}
 
+	// ---- FAILED-TRANSACTION TRACE family: configuration the ante chain reads (execution fees, MinTxFee / MaxTxFee /
+	// EnableForeignFeePayments, token registry) is written by the FIRST messages of a transaction whose LAST message
+	// fails, and by transactions that are only simulated / only checked; probes priced at the old and the attempted new
+	// configuration follow; then the write is delivered for real and the probes are repeated
+	{
+		ntrace := *n / 6
+		if ntrace < 12 {
+			ntrace = 12
+		}
+		tw := append(append([]string{}, watch...), "g0")
+		for i := 0; i < ntrace; i++ {
+			hdr := tmproto.Header{Height: height, Time: time.Unix(1700000000+height*6, 0).UTC(), ProposerAddress: proposer}
+			app.BeginBlock(abci.RequestBeginBlock{Header: hdr})
+			ctx := app.BaseApp.NewContext(false, hdr)
+			c := &c09lib.Cfg{NVals: 1, MinVals: 1, MaxSend: 1000, MinFee: 100, MaxFee: 1000000, Foreign: true,
+				Tokens: []c09lib.Tok{{Denom: "ukex", Rate: sdk.NewDec(1), FeeEnabled: true}, {Denom: "ubtc", Rate: sdk.NewDec(10), FeeEnabled: true}},
+				Exec:   []c09lib.ExecFee{{Type: "send", Execution: 5000, Failure: uint64(300 + r.Intn(4000))}}}
+			if err := e.Apply(ctx, c); err != nil {
+				panic(err)
+			}
+			if app.BankKeeper.GetBalance(ctx, e.AddrOf("g0"), "ukex").Amount.LT(sdk.NewInt(1000000000)) {
+				e.Fund(ctx, e.AddrOf("g0"), rich)
+			}
+			// commit the base configuration in a block of its own, so that CheckTx / Simulate (which run on the
+			// committed state) price the writing transaction against it
+			hx.Try(func() { app.EndBlock(abci.RequestEndBlock{Height: height}) })
+			app.Commit()
+			height++
+			hdr = tmproto.Header{Height: height, Time: time.Unix(1700000000+height*6, 0).UTC(), ProposerAddress: proposer}
+			app.BeginBlock(abci.RequestBeginBlock{Header: hdr})
+			ctx = app.BaseApp.NewContext(false, hdr)
+			for _, a := range append(append([]*c09lib.Acc{}, e.Accs[:4]...), e.AccOf("g0")) {
+				if app.BankKeeper.GetBalance(ctx, a.Addr, "ukex").Amount.LT(sdk.NewInt(1000000000)) {
+					e.Fund(ctx, a.Addr, rich)
+				}
+			}
+			K := func(d string, v int64) []sdk.Coin { return []sdk.Coin{sdk.NewInt64Coin(d, v)} }
+			var w c09lib.Write
+			var wty string
+			var probes [][]sdk.Coin
+			switch i % 6 {
+			case 0: // execution fee lowered
+				w, wty = c09lib.Write{Kind: "exec", Ty: "send", E: 1, F: 1}, "set_execution_fee"
+				probes = [][]sdk.Coin{K("ukex", 100), K("ukex", 4999), K("ukex", 5000)}
+			case 1: // execution fee raised
+				w, wty = c09lib.Write{Kind: "exec", Ty: "send", E: 9000, F: 9000}, "set_execution_fee"
+				probes = [][]sdk.Coin{K("ukex", 5000), K("ukex", 8999), K("ukex", 9000)}
+			case 2: // minimum fee raised above the execution fee
+				w, wty = c09lib.Write{Kind: "fees", Min: 7000, Max: 1000000, Foreign: true}, "set_network_properties"
+				probes = [][]sdk.Coin{K("ukex", 5000), K("ukex", 6999), K("ukex", 7000)}
+			case 3: // maximum fee lowered
+				w, wty = c09lib.Write{Kind: "fees", Min: 100, Max: 6000, Foreign: true}, "set_network_properties"
+				probes = [][]sdk.Coin{K("ukex", 6001), K("ukex", 6000), K("ukex", 50000)}
+			case 4: // foreign fee payments switched off
+				w, wty = c09lib.Write{Kind: "fees", Min: 100, Max: 1000000, Foreign: false}, "set_network_properties"
+				probes = [][]sdk.Coin{K("ubtc", 500), K("ukex", 5000)}
+			default: // a token registered as fee token
+				w, wty = c09lib.Write{Kind: "token", Denom: "ufoo", Rate: sdk.NewDec(2), Enabled: true}, "upsert_token_info"
+				probes = [][]sdk.Coin{K("ufoo", 2500), K("ukex", 5000)}
+			}
+			wmsg := c09lib.M{Kind: "other", From: "g0", Ty: wty, Fails: false, W: &w}
+			failing := c09lib.M{Kind: "send", From: "g0", To: "a1", Amt: sdk.NewCoins(sdk.NewInt64Coin("ukex", 4000000000000000000))}
+			balsStart := e.Balances(ctx, tw)
+			acctsCoq := e.AcctsCoq(ctx, tw)
+			rel := c09lib.NewRel()
+			var stepCoq []string
+			var stepJS []interface{}
+			deliver := func(t c09lib.TxSpec, writes []c09lib.Write, what string) {
+				sg := c09lib.SignersOf(t)
+				t.Seqs = make([]uint64, len(sg))
+				for k, sn := range sg {
+					t.Seqs[k] = seqOf(ctx, sn)
+				}
+				_, bz, err := e.BuildTx(t, "")
+				if err != nil {
+					panic(err)
+				}
+				dumpB := e.Dump(ctx)
+				balB := e.Balances(ctx, tw)
+				seq0 := seqOf(ctx, sg[0])
+				resp := app.DeliverTx(abci.RequestDeliverTx{Tx: bz})
+				class := classOf(resp, seqOf(ctx, sg[0]) != seq0)
+				balA := e.Balances(ctx, tw)
+				deltas := c09lib.Deltas(balB, balA)
+				rel.AddTx(t)
+				rel.AddDeltas(deltas)
+				diff := e.DiffClasses(dumpB, e.Dump(ctx))
+				obs := fmt.Sprintf("(mkObs %d %s %s %s %s %s)", class, c09lib.DeltasCoq(deltas), e.AcctsCoq(ctx, sg), e.ExecsCoq(ctx),
+					c09lib.StrListCoq(e.MarksPresent(ctx, t.Msgs)), c09lib.DiffCoq(diff))
+				var ws []string
+				for _, x := range writes {
+					ws = append(ws, x.Coq())
+				}
+				stepCoq = append(stepCoq, hx.Tuple("0", hx.List(ws), t.Coq(), obs))
+				log := resp.Log
+				if len(log) > 160 {
+					log = log[:160]
+				}
+				stepJS = append(stepJS, map[string]interface{}{"step": what, "mode": "DeliverTx", "tx": t.JSON(), "class": class, "log": log, "balance_deltas": deltas})
+				dist.Inc(fmt.Sprintf("trace:%s:class%d", what, class))
+			}
+			offchain := func(mode int, what string) {
+				t := c09lib.TxSpec{Fee: K("ukex", 9500), Msgs: []c09lib.M{wmsg}, Seqs: []uint64{seqOf(ctx, "g0")}, SigOK: true}
+				_, bz, err := e.BuildTx(t, "")
+				if err != nil {
+					panic(err)
+				}
+				res := ""
+				if mode == 2 {
+					_, _, serr := app.Simulate(bz)
+					if serr != nil {
+						res = serr.Error()
+					}
+				} else {
+					rc := app.CheckTx(abci.RequestCheckTx{Tx: bz, Type: abci.CheckTxType_New})
+					res = fmt.Sprintf("code %d", rc.Code)
+				}
+				if len(res) > 120 {
+					res = res[:120]
+				}
+				stepCoq = append(stepCoq, hx.Tuple(fmt.Sprint(mode), hx.List([]string{w.Coq()}), t.Coq(), "(mkObs 0 [] [] [] [] [])"))
+				stepJS = append(stepJS, map[string]interface{}{"step": what, "mode": map[int]string{1: "CheckTx only", 2: "Simulate only"}[mode], "tx": t.JSON(), "result": res})
+				dist.Inc("trace:" + what)
+			}
+			runProbes := func(what string) {
+				for pi, f := range probes {
+					from := []string{"a0", "a1", "a2"}[(pi+i)%3]
+					deliver(c09lib.TxSpec{Fee: f, Msgs: []c09lib.M{{Kind: "send", From: from, To: "a3", Amt: sdk.NewCoins(sdk.NewInt64Coin("ukex", 3))}}, SigOK: true}, nil, what)
+				}
+			}
+			if i%2 == 0 {
+				offchain(2, "simulate-write")
+			} else {
+				offchain(1, "check-write")
+			}
+			runProbes("probe-after-unexecuted-write")
+			deliver(c09lib.TxSpec{Fee: K("ukex", 9500), Msgs: []c09lib.M{wmsg, failing}, SigOK: true}, []c09lib.Write{w}, "write-then-failing-message")
+			runProbes("probe-after-failed-write")
+			deliver(c09lib.TxSpec{Fee: K("ukex", 9500), Msgs: []c09lib.M{wmsg}, SigOK: true}, []c09lib.Write{w}, "write-delivered")
+			runProbes("probe-after-delivered-write")
+			hx.Try(func() { app.EndBlock(abci.RequestEndBlock{Height: height}) })
+			lines = append(lines, fmt.Sprintf("CTrace %s %s %s %s %s %s", e.CfgCoq(c), acctsCoq, c09lib.BalsCoqFor(balsStart, rel), c09lib.StrListCoq(tw), c09lib.StrListCoq(rel.List()), hx.List(stepCoq)))
+			js = append(js, map[string]interface{}{"kind": "trace", "level": "ABCI DeliverTx / CheckTx / Simulate", "height": height, "config": c.JSON(), "attempted_write": w.Coq(), "steps": stepJS})
+			app.Commit()
+			height++
+		}
+	}
+
 	// ---- keeper level: the pay-back loop of the feeprocessing keeper over random histories
 	{
 		hdr := tmproto.Header{Height: height, Time: time.Unix(1700000000+height*6, 0).UTC(), ProposerAddress: proposer}
